@@ -114,6 +114,7 @@ def check(prop: str, tier: str, seed: int, repo: str | None = None, write: bool 
             "unknown": [o.key for o in unknowns],
         }
         if selftest is not None:
+            cov["automut"] = selftest.pop("automut", None)
             cov["selftest"] = selftest
         report.write_evidence(prop, tier, seed, obs, cov, props.ASSUMPTIONS_COMMON + props.ASSUMPTIONS.get(prop, []) if hasattr(props, "ASSUMPTIONS") else props.ASSUMPTIONS_COMMON,
                               time.time() - t0, len(violations))
